@@ -14,7 +14,7 @@ def esc1 (canonical : Bool) (ch : UInt8) : Bytes :=
   else if ch == 38 then b!"&amp;"
   else if ch == 34 then b!"&quot;"
   else if ch == 39 then b!"&apos;"
-  else if ch == 13 && canonical then b!"&#13;"
+  else if ch == 13 then b!"&#13;"
   else if ch == 10 && canonical then b!"&#10;"
   else if ch == 9 && canonical then b!"&#9;"
   else [ch]
@@ -76,8 +76,8 @@ theorem unescape_escape (c : Bool) (s : Bytes) : unescape (xmlEscape c s) = s :=
             · rename_i h; have : a = 39 := by simpa using h
               subst this; simp [unescape, ih]
             · split
-              · rename_i h; simp only [Bool.and_eq_true] at h
-                have : a = 13 := by simpa using h.1
+              · rename_i h
+                have : a = 13 := by simpa using h
                 subst this; simp [unescape, ih]
               · split
                 · rename_i h; simp only [Bool.and_eq_true] at h
@@ -106,6 +106,32 @@ theorem esc1_canonical_no_ws (a : UInt8) : (esc1 true a).all (fun b => b != 13 &
   split; · decide
   simp only [List.all_cons, List.all_nil, Bool.and_true]
   simp_all
+
+/-- A literal CR is never left in escaped text, in any generation mode (it would not survive
+    XML's line-end normalisation). -/
+theorem escape_has_no_cr (c : Bool) (s : Bytes) : ∀ b ∈ xmlEscape c s, b ≠ 13 := by
+  have h1 : ∀ a, (esc1 c a).all (fun b => b != 13) = true := by
+    intro a
+    unfold esc1
+    split; · decide
+    split; · decide
+    split; · decide
+    split; · decide
+    split; · decide
+    split; · decide
+    split; · decide
+    split; · decide
+    simp only [List.all_cons, List.all_nil, Bool.and_true]
+    simp_all
+  induction s with
+  | nil => simp [xmlEscape_nil]
+  | cons a s ih =>
+    intro b hb
+    rw [xmlEscape_cons] at hb
+    rcases List.mem_append.mp hb with h | h
+    · have := List.all_eq_true.mp (h1 a) b h
+      simpa using this
+    · exact ih b h
 
 /-- In canonical generation no literal CR, LF or TAB is left in escaped text (they are written as
     character references and therefore survive XML's line-end and attribute-value normalisation). -/
